@@ -154,6 +154,30 @@ pub fn c07(a: &Args) {
             if chi2 > thr { out.fail("urs-not-uniform", &file.text(), &format!("urs a {:?}: {} draws over {} models", al, total, models.len()), &format!("chi2 = {:.1}, histogram {:?}", chi2, models.iter().map(|&k| hist[k]).collect::<Vec<_>>()), &format!("chi2 <= {:.1} (false alarm < 1e-12)", thr)); }
         }
     }
+    // a model whose count exceeds u64 (72 features, 3 * 2^70 models): k complete models, reproducible
+    {
+        events.lock().unwrap().clear();
+        let lines = vec!["o 1 0".to_string(), "t 2 0".to_string(), "1 2 1 0".to_string(), "1 2 -1 2 0".to_string()];
+        let text = lines.join("\n");
+        let n = 72u32;
+        if let Ok(mut d) = guarded(move || ddnnife::parser::distribute_building(lines, Some(n), None)) {
+            for (al, k, seed) in [(vec![], 7usize, 3u64), (vec![-1], 5, 11), (vec![70, -71], 9, 42)] {
+                out.eval(Some(format!("{text}|huge|{:?}|{k}", al)));
+                let r1 = guarded(|| d.uniform_random_sampling(&al, k, seed));
+                let r2b = guarded(|| d.uniform_random_sampling(&al, k, seed));
+                events.lock().unwrap().clear();
+                let req = format!("urs a {:?} n {k} s {seed} -t {n}", al);
+                match (r1, r2b) {
+                    (Ok(Some(s1)), Ok(Some(s2))) => {
+                        let ok = s1.len() == k && s1.iter().all(|c| c.len() == n as usize && (1..=n as i32).all(|v| c.contains(&v) != c.contains(&-v)) && (c.contains(&1) || c.contains(&2)) && al.iter().all(|l| c.contains(l)));
+                        if !ok { out.fail("urs-invalid", &text, &req, &format!("{} samples", s1.len()), "k complete models containing A"); }
+                        if s1 != s2 { out.fail("urs-not-repeatable", &text, &req, "two different lists", "the same list"); }
+                    }
+                    _ => out.fail("urs-panic", &text, &req, "None / panic", "samples"),
+                }
+            }
+        }
+    }
     crate::cli_props::cli_pass(a, &mut out, &mut rng, &["urs"]);
     out.finish("(+ CLI pass: the rebuilt binary's `urs` on a sample of the models, judged by the same oracles) every model of the C01 space x 4-5 assumption lists (incl. a 22-literal one) x amounts {0,1,2,5,17} (10^4 occasionally) x seeds: length, validity, None iff unsat, repeatability, stream `random`; every run's random decisions (or-splits, shuffles) recorded by the hook and replayed through the Lean model, which must accept each decision and reproduce the sample list; chi-square uniformity per (model, A) with <=256 models from 41 600 draws pooled over 52 seeds, threshold df+2sqrt(27.63 df)+55.26 (false alarm < 1e-12)");
 }
